@@ -153,7 +153,10 @@ def _worker(args):
             if KEEP_DIGESTS:
                 out['digests'].append((i, canon.digest(ctx.events)))
             if len(out['samples']) < 1 and ctx.nontrivial:
-                out['samples'].append(prop.sample(case) if hasattr(prop, 'sample') else case)
+                try:
+                    out['samples'].append(prop.sample(case) if hasattr(prop, 'sample') else case)
+                except Exception:
+                    out['samples'].append(case)
             if herr:
                 out['harness'].append({'run': i, 'seed': seed, 'error': herr[-1500:]})
                 if len(out['harness']) > 3:
